@@ -10,7 +10,11 @@ SPEC = {
               quick_n=400, thorough_n=6000,
               rule="the harness is injected into package main of godev/cmd/worker (tag verif) and runs the REAL "
                    "handleMerge / readMergedReports / handleChart (parseDateRange, group, charts, partition, fileName) over "
-                   "storage.FSBucket in a temp dir. Per 20 slots: 5 merge cases (one day of 0-40 uploads, shuffled creation "
+                   "storage.FSBucket in a temp dir. Start dates: Jan-Mar 2024 month ends and leap day (60%), 25-31 December of "
+                   "2023/2024/1999/2099/2100/2020 so that ranges cross New Year (30%), 1 January (10%); 3% of chart ranges and 8% "
+                   "of copy ranges span 300-800 days. 20-30% of merge/chart/copy cases and half the seq cases put unlistable "
+                   "stray directories (names that are not valid UTF-8, sorting before and after the dates) into the bucket. What "
+                   "is stored for a day is the harness's own record of what it wrote; the real listing only orders it. Per 20 slots: 5 merge cases (one day of 0-40 uploads, shuffled creation "
                    "order, pretty-printed / padded / trailing-garbage objects, 8% with one undecodable object, 6% of reports "
                    "64KiB..98KiB i.e. one merged line over bufio's 64KiB token, duplicate X incl. 0/-0/1e-320; observed: "
                    "status, count in the response, the merged object line by line decoded, the real read-back), 1 hand-made "
@@ -25,7 +29,8 @@ SPEC = {
                    "range charted AGAIN with nothing removed in between, so merged and chart objects are rewritten in place, "
                    "mostly with shorter content; observed after every merge: status, count, listing, the merged object's "
                    "bytes and its decoding as a stream of reports, the real read-back; after every chart: status and the "
-                   "chart object parsed), 1 end<start range, 3 goMajorMinor strings, 2 splitCounterName/Expand/"
+                   "chart object parsed), 1 end<start range + 1 copy case (real handleCopy from an FS source bucket into the upload bucket, objects in, "
+                   "just before and just after the range, destination objects already present, the whole destination observed),  3 goMajorMinor strings, 2 splitCounterName/Expand/"
                    "IsToolchainProgram strings. semver.Compare/version.Compare enter the model as rank tables of the case's "
                    "keys computed with the real comparators. distinct = distinct case lines; a merge case of an empty day is "
                    "the only kind counted trivial"),
